@@ -2029,6 +2029,7 @@ func strataForC01(ctx *Ctx) []*sem.Case {
 	add(6, selfRefTwinCase)
 	add(12, mixinBranchCase)
 	add(2, caseIdentifierCase)
+	add(9, anyOfAliasCollisionCase)
 	add(12, objectDefaultCase)
 	add(12, nullableDefCase)
 	add(16, nestedOverlapCase)
@@ -2453,5 +2454,37 @@ func caseIdentifierCase(i int) *sem.Case {
 		c.Docs = append(c.Docs, docgen.Doc{V: wrap(o), Class: f.class, Label: "single-fault"})
 	}
 	c.Docs = append(c.Docs, docgen.Doc{V: wrap(jsonx.Obj{{K: "sku", V: "SKU-9"}}), Class: "required", Label: "no-id"})
+	return c
+}
+
+// anyOfAliasCollisionCase: an anyOf whose members given by reference are declared as aliases <Type>_<i>, next to
+// sibling properties whose names normalise to the same identifier (their fields are renamed X_2, X_3 and their
+// types follow): every declaration keeps a name of its own and every key its own schema.
+func anyOfAliasCollisionCase(i int) *sem.Case {
+	names := [][]string{{"a:b", "aB", "a;b"}, {"net addr", "net-addr", "net_addr", "netAddr"}, {"x y", "xY", "x-y", "x_y", "X Y"}}[i%3]
+	d1 := &sg.Schema{Types: []string{"object"}, Props: []sg.Prop{{Name: "k1", S: &sg.Schema{Types: []string{"boolean"}}}}, Required: []string{"k1"}}
+	d2 := &sg.Schema{Types: []string{"object"}, Props: []sg.Prop{{Name: "k2", S: &sg.Schema{Types: []string{"string"}, MinLen: 2}}}, Required: []string{"k2"}}
+	d3 := &sg.Schema{Types: []string{"object"}, Props: []sg.Prop{{Name: "k3", S: &sg.Schema{Types: []string{"integer"}, Min: sg.Fp(1)}}}, Required: []string{"k3"}}
+	inline := func() *sg.Schema {
+		return &sg.Schema{Types: []string{"object"}, Props: []sg.Prop{{Name: "in", S: &sg.Schema{Types: []string{"string"}}}}, Required: []string{"in"}}
+	}
+	ref := func(n string, t *sg.Schema) *sg.Schema { return &sg.Schema{Ref: "#/$defs/" + n, Target: t} }
+	members := [][]*sg.Schema{
+		{ref("Def1", d1), inline(), ref("Def2", d2)},
+		{ref("Def1", d1), ref("Def2", d2), ref("Def3", d3)},
+		{inline(), ref("Def1", d1), ref("Def2", d2), ref("Def3", d3)},
+	}[(i/3)%3]
+	root := &sg.Schema{Types: []string{"object"}, Defs: []sg.Prop{{Name: "Def1", S: d1}, {Name: "Def2", S: d2}, {Name: "Def3", S: d3}}}
+	root.Props = append(root.Props, sg.Prop{Name: names[0], S: &sg.Schema{Types: []string{"object"}, AnyOf: members}})
+	c := &sem.Case{Root: root, Sig: fmt.Sprintf("anyof-alias-collision/%d", i%9), NoAuto: true}
+	for k, n := range names[1:] {
+		key := fmt.Sprintf("own%d", k)
+		root.Props = append(root.Props, sg.Prop{Name: n, S: &sg.Schema{Types: []string{"object"}, Props: []sg.Prop{{Name: key, S: &sg.Schema{Types: []string{"string"}, MinLen: 1}}}, Required: []string{key}}})
+		c.Docs = append(c.Docs, docgen.Doc{V: jsonx.Obj{{K: n, V: jsonx.Obj{{K: key, V: "v"}}}}, Class: "collision", Label: "own-schema"},
+			docgen.Doc{V: jsonx.Obj{{K: n, V: jsonx.Obj{{K: "k1", V: true}}}}, Class: "collision", Label: "other-schema"})
+	}
+	for _, v := range []jsonx.Obj{{{K: "k1", V: true}}, {{K: "k2", V: "ab"}}, {{K: "in", V: "x"}}, {{K: "own0", V: "v"}}, {}} {
+		c.Docs = append(c.Docs, docgen.Doc{V: jsonx.Obj{{K: names[0], V: v}}, Class: "collision", Label: "anyof"})
+	}
 	return c
 }
